@@ -158,8 +158,39 @@ def digest_of(chunks) -> str:
     return f"{h.hexdigest()[:24]}:{n}"
 
 
+def safe_digest(make_chunks) -> str:
+    """Digest of a workload's output; a workload that raises is an outcome ('RAISED:<type>'), not a harness failure."""
+    try:
+        return digest_of(make_chunks())
+    except Exception as e:  # noqa: BLE001
+        return f"RAISED:{type(e).__name__}"
+
+
 def solo_digests(seed: int) -> dict:
-    return {str(i): digest_of(open_workload(make_workload(seed, i), seed)) for i in range(N_WORKLOADS)}
+    """Every workload ALONE: each runs in its own forked child of this freshly started interpreter, so nothing of
+    pyjelly has run before it (only the imports).  A child that dies is recorded as CRASHED."""
+    out = {}
+    for i in range(N_WORKLOADS):
+        r, w = os.pipe()
+        pid = os.fork()
+        if pid == 0:
+            try:
+                os.close(r)
+                d = safe_digest(lambda: open_workload(make_workload(seed, i), seed))
+                os.write(w, d.encode())
+            finally:
+                os._exit(0)
+        os.close(w)
+        buf = b""
+        while True:
+            chunk = os.read(r, 4096)
+            if not chunk:
+                break
+            buf += chunk
+        os.close(r)
+        _pid, status = os.waitpid(pid, 0)
+        out[str(i)] = buf.decode() if buf else f"CRASHED:{status}"
+    return out
 
 
 def reference_from_subprocess(seed: int, hashseed: str) -> dict:
@@ -303,7 +334,7 @@ def history_scenario(ctx, rng, seed, ref):
         ctx._keep = getattr(ctx, "_keep", [])
         ctx._keep.append(it)
     idx = rng.randrange(N_WORKLOADS)
-    got = digest_of(open_workload(make_workload(seed, idx), seed))
+    got = safe_digest(lambda: open_workload(make_workload(seed, idx), seed))
     ctx.observe("history-runs")
     if got != ref[str(idx)]:
         ctx.violation({"clause": "output-depends-on-history", "workload": idx, "scenario": "history",
@@ -324,13 +355,18 @@ def interleave_scenario(ctx, rng, seed, ref):
     idxs = [rng.randrange(N_WORKLOADS) for _ in range(k)]
     its = [open_workload(make_workload(seed, i), seed) for i in idxs]
     outs = [[] for _ in idxs]
+    raised = [None] * k
     live = list(range(k))
     order = []
     while live:
         j = rng.choice(live)
         burst = rng.choice([1, 1, 1, 2, 5])
         for _ in range(burst):
-            c = next(its[j], None)
+            try:
+                c = next(its[j], None)
+            except Exception as e:  # noqa: BLE001 - a workload that raises is an outcome (it does not raise alone)
+                raised[j] = f"RAISED:{type(e).__name__}"
+                c = None
             if c is None:
                 live.remove(j)
                 break
@@ -339,7 +375,7 @@ def interleave_scenario(ctx, rng, seed, ref):
     ctx.observe("interleaved-runs")
     sched = hashlib.sha256(repr((idxs, order)).encode()).hexdigest()[:16]
     for j, i in enumerate(idxs):
-        got = digest_of(outs[j])
+        got = raised[j] or digest_of(outs[j])
         if got != ref[str(i)]:
             ctx.violation({"clause": "output-depends-on-interleaving", "workload": i, "scenario": "interleave",
                            "workloads": idxs, "order": order[:200],
